@@ -206,7 +206,9 @@ def run_c15(T, big):
                             probe = [a[0] - 0.7, a[0] + 0.3 * (a[1] - a[0]), a[-1] - 0.4 * (a[-1] - a[-2]), a[-1] + 0.9, a[len(a) // 2] + 0.1, a[0], a[-1]]
                             fresh = [float(mk(meth, axes, v2).interpolate(np.array([x]))[0]) for x in probe]
                             bad = None
-                            for perm in ([0, 1, 2, 3, 4, 5, 6], [1, 0, 3, 2, 6, 5, 4], [3, 2, 0, 1, 4, 6, 5], [2, 3, 1, 0, 5, 4, 6], [6, 5, 4, 3, 2, 1, 0]):
+                            # (every order that follows an outside point by a far cell / a node, and vice versa)
+                            for perm in ([0, 1, 2, 3, 4, 5, 6], [1, 0, 3, 2, 6, 5, 4], [3, 2, 0, 1, 4, 6, 5], [2, 3, 1, 0, 5, 4, 6], [6, 5, 4, 3, 2, 1, 0],
+                                         [0, 4, 0, 2, 0, 6, 1], [0, 6, 3, 5, 0, 4, 3, 1], [3, 0, 2, 3, 4, 0, 5]):
                                 it = mk(meth, axes, v2)
                                 for j in perm:
                                     r = float(it.interpolate(np.array([probe[j]]))[0])
@@ -354,6 +356,48 @@ def run_c16(T, big):
                     # no derivative was returned (method does not support table gradients, or the request failed):
                     # outside the statement, which is about the derivatives that ARE returned; counted, not a failure
                     T.raised.append(dict(desc, where='d/dvalues', error='%s: %s' % (type(e).__name__, str(e)[:120])))
+    # ---- spline-mode histories: ONE InterpND / SplineComp object evaluated, x_interp replaced by another array of
+    # the same length, evaluated again: values and d/dvalues must equal those of a fresh object ------------------
+    from openmdao.components.interp_util.interp import InterpND as _IND
+    for name in ('mixed', 'neg'):
+        xcp = AXES[name]
+        xa = np.array([xcp[0], 0.3 * xcp[0] + 0.7 * xcp[1], xcp[2] + 0.1, xcp[-1]])
+        xb = np.array([xcp[1], xcp[2] - 0.2, xcp[-2] + 0.3 * (xcp[-1] - xcp[-2]), xcp[-1] - 0.05])
+        ycp = np.stack([np.sin(xcp) + 0.1 * xcp ** 2])
+        for method in ['slinear', 'lagrange2', 'lagrange3', 'cubic', 'akima', 'scipy_slinear', 'scipy_cubic']:
+            T.ev += 1
+            desc = dict(method=method, x_cp=name, mode='spline history (x_interp replaced on the same object)')
+            try:
+                it = _IND(method=method, points=xcp.copy(), x_interp=xa.copy(), extrapolate=True)
+                it.evaluate_spline(ycp.copy(), compute_derivative=True)
+                it.x_interp = xb.copy()
+                y2, d2 = it.evaluate_spline(ycp.copy(), compute_derivative=True)
+                fr = _IND(method=method, points=xcp.copy(), x_interp=xb.copy(), extrapolate=True)
+                y2f, d2f = fr.evaluate_spline(ycp.copy(), compute_derivative=True)
+                if not np.allclose(y2, y2f, atol=1e-10) or not np.allclose(np.asarray(d2), np.asarray(d2f), atol=1e-10):
+                    T.fail(kind='spline history: value/derivative after replacing x_interp differs from a fresh object', value=np.asarray(y2).tolist(), fresh_value=np.asarray(y2f).tolist(),
+                           max_deriv_diff=float(np.max(np.abs(np.asarray(d2) - np.asarray(d2f)))), **desc)
+                    continue
+                # SplineComp: option x_interp_val changed between two setups of the same component object
+                import openmdao.api as om
+                c = om.SplineComp(method=method, x_cp_val=xcp.copy(), x_interp_val=xa.copy(), vec_size=1)
+                c.add_spline(y_cp_name='ycp', y_interp_name='y')
+                p = om.Problem(reports=False)
+                p.model.add_subsystem('ivc', om.IndepVarComp('ycp', ycp.copy()), promotes=['*'])
+                p.model.add_subsystem('s', c, promotes=['*'])
+                p.setup()
+                p.run_model()
+                p.compute_totals(of=['y'], wrt=['ycp'], return_format='array')
+                c.options['x_interp_val'] = xb.copy()
+                p.setup()
+                p.run_model()
+                J = p.compute_totals(of=['y'], wrt=['ycp'], return_format='array')
+                if not np.allclose(p.get_val('y').ravel(), np.asarray(y2f).ravel(), atol=1e-10) or not np.allclose(J, np.asarray(d2f).reshape(J.shape), atol=1e-10):
+                    T.fail(kind='spline history: SplineComp after changing x_interp_val differs from a fresh interpolant', **desc)
+                    continue
+                T.ok()
+            except Exception as e:      # noqa
+                T.raised.append(dict(desc, where='spline history', error='%s: %s' % (type(e).__name__, str(e)[:120])))
     # ---- spline mode (SplineComp / InterpND.evaluate_spline): value linear in control points -----
     from openmdao.components.interp_util.interp import InterpND
     for name in ('mixed', 'neg', 'from0'):
